@@ -235,6 +235,29 @@ class CountingDistribution:
         self.world.on_momenta_drawn(context)
 
 
+class RecordingIntegrator:
+    """A user-side Integrator implementing the protocol by delegation; records the kinetic
+    energy and momenta the atoms carry when an integration starts (the start of the
+    trajectory whose total-energy change the acceptance test is about)."""
+
+    def __init__(self, inner, world):
+        self.inner = inner
+        self.world = world
+
+    def integrate(self, context):
+        a = self.world.atoms
+        self.world.integrate_events.append({"ke": float(a.get_kinetic_energy()),
+                                            "momenta": np.array(a.get_momenta(), copy=True)})
+        return self.inner.integrate(context)
+
+    def to_dict(self):
+        return self.inner.to_dict()
+
+    @classmethod
+    def from_dict(cls, data):  # pragma: no cover
+        raise NotImplementedError
+
+
 class MoveEnv:
     def __init__(self, world):
         self.world = world
@@ -292,6 +315,8 @@ def build_move(spec: dict, env: MoveEnv, path: str):
             mv = qm.HamiltonianDisplacementMove(CountingDistribution(w), integ)
         else:
             mv = qm.HamiltonianDisplacementMove(operation=integ)
+        if w.opts.get("record_integrator"):
+            mv.operation = RecordingIntegrator(mv.operation, w)
     else:
         raise ValueError(f"unknown move {t}")
     if "max_attempts" in spec:
@@ -381,6 +406,7 @@ class World:
         self.trial_offset = int(scenario.get("trial_offset", 0))
         self.crit_events = []  # filled during a trial by TapeCriteria
         self.momenta_events = []
+        self.integrate_events = []
         self.aborted = None
         self._build()
 
@@ -697,6 +723,7 @@ class World:
             self.check_log = []
             self.crit_events = []
             self.momenta_events = []
+            self.integrate_events = []
             for sink in self.op_sinks.values():
                 sink.clear()
             self._apply_tapes(name)
@@ -884,6 +911,8 @@ class FBWorld:
                          temperature=p["temperature"], scheme=p.get("scheme", "forces"),
                          reference_variance=p.get("reference_variance", 0.1),
                          update_function=p.get("update_function", "tanh"), **kw)
+        if p.get("update_masses") is not None:
+            mc.update_masses(np.array(p["update_masses"], dtype=float))
         msp = p.get("masses_scaling_power")
         if msp is not None:
             mc.masses_scaling_power = np.array(msp, dtype=float) if isinstance(msp, list) else float(msp)
